@@ -12,7 +12,7 @@ open(os.path.join(dst, "notes.md"), "w").write(notes)
 place = re.search(r"place at: *(\S+)", open(os.path.join(dst, "demo.rs")).read()).group(1)
 files = sorted(set(re.findall(r"^\+\+\+ b/(\S+)", open(os.path.join(dst, "patch.diff")).read(), re.M)))
 meta = dict(
-    id="%s-%s" % (pid, m), property=pid, files_changed=files, demo_place_at=place, needs_to_manifest=needs,
+    id="%s-%s" % (pid, m), property=pid[:3], files_changed=files, demo_place_at=place, needs_to_manifest=needs,
     produced_by="independent sub-agent given only the property text and a scratch worktree",
     confirmed=dict(
         how="tools/verify_mutant.sh in a scratch worktree of /repo (HEAD incl. the fix: commit)",
